@@ -205,6 +205,10 @@ enum websocket_callback_return text_frame_received_comp(bool is_compressed, stru
 		if (!is_last_frame) {
 			return WS_OK;
 		}
+		if (strm->avail_in == 0) {
+			log_err("Compressed message without any payload!");
+			return WS_ERROR;
+		}
 
 		enum websocket_callback_return ret;
 		size_t have = 0;
@@ -251,6 +255,10 @@ enum websocket_callback_return binary_frame_received_comp(bool is_compressed, st
 		if (ret_val < 0) return WS_ERROR;
 		if (!is_last_frame) {
 			return WS_OK;
+		}
+		if (strm->avail_in == 0) {
+			log_err("Compressed message without any payload!");
+			return WS_ERROR;
 		}
 
 		enum websocket_callback_return ret;
